@@ -205,6 +205,43 @@ fn fr<S: PageSize>(code: u8, v: u64, n: u64) -> Option<u64> {
     Some(q.start_address().as_u64())
 }
 
+/// ranges are values too: drain a range in place with next() (k = all items + 1) and read its public fields back
+/// code: 0/1 inclusive start/end field, 2/3 exclusive start/end field; the range spans n pages from the page containing v
+fn pg_range<S: PageSize>(code: u8, v: u64, n: u64) -> Option<u64> {
+    let p = page_start::<S>(v);
+    let e = Step::forward_checked(p, n as usize)?;
+    Some(if code < 2 {
+        let mut rg = Page::<S>::range_inclusive(p, e);
+        for _ in 0..=n + 1 {
+            let _ = rg.next();
+        }
+        if code == 0 { rg.start } else { rg.end }.start_address().as_u64()
+    } else {
+        let mut rg = Page::<S>::range(p, e);
+        for _ in 0..=n + 1 {
+            let _ = rg.next();
+        }
+        if code == 2 { rg.start } else { rg.end }.start_address().as_u64()
+    })
+}
+fn fr_range<S: PageSize>(code: u8, v: u64, n: u64) -> Option<u64> {
+    let p = frame_start::<S>(v);
+    let e = PhysFrame::<S>::from_start_address(PhysAddr::try_new(p.start_address().as_u64().checked_add(n.checked_mul(S::SIZE)?)?).ok()?).ok()?;
+    Some(if code < 2 {
+        let mut rg = PhysFrame::<S>::range_inclusive(p, e);
+        for _ in 0..=n + 1 {
+            let _ = rg.next();
+        }
+        if code == 0 { rg.start } else { rg.end }.start_address().as_u64()
+    } else {
+        let mut rg = PhysFrame::<S>::range(p, e);
+        for _ in 0..=n + 1 {
+            let _ = rg.next();
+        }
+        if code == 2 { rg.start } else { rg.end }.start_address().as_u64()
+    })
+}
+
 /// Apply one safe address-returning operation. None = panicked / produced no value.
 pub fn apply(virt: bool, v: u64, a: Act) -> Option<u64> {
     catch(move || -> Option<u64> {
@@ -224,6 +261,9 @@ pub fn apply(virt: bool, v: u64, a: Act) -> Option<u64> {
                 10..=18 => pg::<Size4KiB>(a.0 - 10, v, a.1)?,
                 20..=28 => pg::<Size2MiB>(a.0 - 20, v, a.1)?,
                 30..=38 => pg::<Size1GiB>(a.0 - 30, v, a.1)?,
+                50..=53 => pg_range::<Size4KiB>(a.0 - 50, v, a.1)?,
+                60..=63 => pg_range::<Size2MiB>(a.0 - 60, v, a.1)?,
+                70..=73 => pg_range::<Size1GiB>(a.0 - 70, v, a.1)?,
                 40 => VirtAddr::from_ptr(x.as_ptr::<u8>()).as_u64(),
                 41 => {
                     // a page built from this address' own indices
@@ -242,6 +282,9 @@ pub fn apply(virt: bool, v: u64, a: Act) -> Option<u64> {
                 3 => (x - a.1).as_u64(),
                 4 => assign(x, |y| *y += a.1).as_u64(),
                 5 => assign(x, |y| *y -= a.1).as_u64(),
+                50..=53 => fr_range::<Size4KiB>(a.0 - 50, v, a.1)?,
+                60..=63 => fr_range::<Size2MiB>(a.0 - 60, v, a.1)?,
+                70..=73 => fr_range::<Size1GiB>(a.0 - 70, v, a.1)?,
                 10..=14 => fr::<Size4KiB>(a.0 - 10, v, a.1)?,
                 20..=24 => fr::<Size2MiB>(a.0 - 20, v, a.1)?,
                 30..=34 => fr::<Size1GiB>(a.0 - 30, v, a.1)?,
@@ -292,6 +335,14 @@ fn actions(virt: bool, small: bool) -> Vec<Act> {
     if virt {
         for c in 40..=43 {
             v.push(Act(c, 0));
+        }
+    }
+    // drained ranges of 0..3 pages starting at the page containing the value: fields left behind
+    for base in [50u8, 60, 70] {
+        for c in 0..4 {
+            for n in 0..=3u64 {
+                v.push(Act(base + c, n));
+            }
         }
     }
     v
